@@ -135,6 +135,11 @@ func checkC01(c *Ctx) {
 	f.ruleDecoderGates("C01-R2")
 	f.ruleCRCGate("C01-R4")
 	f.ruleFrameConstants("C01-R6")
+	// R3 (continued): the bytes stay what the CRC was computed over: nothing reachable from the
+	// single-frame decoder writes into the frame
+	if gm := c.P.Func("rtcm/handler", "(*Handler).GetMessage"); gm != nil {
+		ruleRawBuffersReadOnly(c, "C01-R3", c.P.ReachableModule([]*ssa.Function{gm}))
+	}
 	// R7: stream path: typed messages reach the stream only as the decoder's result on the
 	// path where the leader was accepted
 	o := consOpts{returns: true, fetchO: fetchOpts{leaderOK: true, skipPairing: true}}
